@@ -2,6 +2,10 @@
 //
 //	verif check <Cxx> [--tier quick|thorough] [--no-evidence]
 //	verif list
+//
+// Type aliases (type fe = field.Element) are seen through: the rules identify types by their declared name.
+//
+//go:debug gotypesalias=0
 package main
 
 import (
